@@ -4,7 +4,7 @@
    formulas by every run of the check), proofs in Proofs/PredicateRename_proofs.v.
    The CPython parser, asttokens and the $-replacer are oracles: the step "the patched text parses to the renamed
    AST" is checked on the implementation for every case (harness/pred_e2e.py), not proved. *)
-From Coq Require Import ZArith List Bool String.
+From Coq Require Import ZArith List Bool String Lia.
 Import ListNotations.
 Require Import Grist.Model.Predicate Grist.Model.PredicateRename.
 Require Import Grist.Proofs.Predicate_proofs Grist.Proofs.PredicateRename_proofs.
@@ -202,3 +202,19 @@ Proof.
   - left; reflexivity.
   - right; right. eexists; split; reflexivity.
 Qed.
+
+(* For patches given in ascending order, disjoint and inside the text, the patched text is: the text before the
+   first patch, its new text, the text between it and the next patch, ... , the text after the last patch --
+   i.e. everything outside the renamed name tokens is kept character for character (this is also how
+   textbuilder.Replacer assembles its output). *)
+Theorem C17_text_outside_patches_unchanged : forall text ps,
+  wf_patches 0 text ps -> apply_patches text ps = spec_apply 0 text ps.
+Proof. exact apply_patches_spec. Qed.
+
+Example C17_text_patch_example :
+  let text := lit "$A == rec.A" in
+  let ps := [Build_patch 1 2 (lit "Zed"); Build_patch 10 11 (lit "Zed")] in
+  wf_patches 0 text ps /\
+  spec_apply 0 text ps = lit "$" ++ lit "Zed" ++ lit " == rec." ++ lit "Zed" ++ [] /\
+  rename_patches (acl_renamer [(lit "T", lit "A", lit "Zed")] (Some (lit "T")) []) [0] (collect ACL ex17_ast) = ps.
+Proof. cbv zeta. split; [cbn; lia|]. split; vm_compute; reflexivity. Qed.
